@@ -11,7 +11,7 @@ namespace FV.Earley
 def scanOn (P : Term → Bool) (scan : Scan) : Scan := fun t k => if P t then scan t k else none
 
 /-- a derivation from (a suffix of) a rule of the table only scans terminals of the table -/
-theorem derL_restrict (G : Grammar) (cap : Nat) (start : String) (scan : Scan) (P : Term → Bool)
+theorem derL_restrict (G : Grammar) (cap : Option Nat) (start : String) (scan : Scan) (P : Term → Bool)
     (hP : ∀ x rhs t, (x, rhs) ∈ compile G cap → ESym.t t ∈ rhs → P t = true)
     {rhs : List ESym} {ks : List PT} {i j : Nat}
     (h : DerL (tableOf G cap start) scan rhs ks i j) (hsub : InTable G cap start rhs) :
@@ -50,35 +50,36 @@ theorem yielded_shape (c : Cfg) (hs : SaneS c) (fuel : Nat) (ts : List Tree)
     refine ⟨kids, rhs, ?_, hr, hd⟩
     simpa [collapse, ntName] using htc
 
-/-- **soundness of the model parser for ANY scanner that answers correctly on the grammar's terminals** -/
-theorem parse_sound_of_scan (G : Grammar) (cap : Nat) (inp : Input) (start : String) (p : Policy)
-    (pred : Nat → NT → List (List ESym)) (scan : Scan) (R : RegexOracle) (extra : Nat → Leaf → Prop)
-    (hpred : ∀ k x rhs, rhs ∈ pred k x → (x, rhs) ∈ compile G cap)
+/-- **soundness of the model parser for ANY scanner that answers correctly on the grammar's terminals**
+    (every variant of the compilation, admission policy, `predict`) -/
+theorem parse_sound_of_scan (G : Grammar) (v : Variant) (inp : Input) (start : String)
+    (pred : Nat → NT → List (List ESym)) (scan : Scan) (R : RegexOracle)
+    (hpred : ∀ k x rhs, rhs ∈ pred k x → (x, rhs) ∈ compile G v.cap)
     (hwf : G.wf = true) (hty : G.typed inp.isBytes = true)
     (hscan : ∀ t, termTyped inp.isBytes t = true → ∀ k m l, scan t k = some (m, l) →
       termOk R t (.leaf l) = true ∧ m = k + l.width ∧ LeafAt inp k l)
     (fuel : Nat) (ts : List Tree)
-    (h : parseComplete (withScan (mkCfg G cap inp start p pred) scan) fuel = some (.ok ts)) :
+    (h : parseComplete (withScan (mkCfg G v inp start pred) scan) fuel = some (.ok ts)) :
     ∀ t ∈ ts, Valid G R t ∧ t.sym = .nt start ∧
       TilesLoose inp t.leaves 0 (8 * inp.cells.length) := by
   intro t ht
-  let c := withScan (mkCfg G cap inp start p pred) scan
-  have hs : SaneS c := saneS_of_rules c G cap rfl hpred
+  let c := withScan (mkCfg G v inp start pred) scan
+  have hs : SaneS c := saneS_of_rules c G v.cap rfl hpred
   obtain ⟨kids, rhs, rfl, hr, hd⟩ := yielded_shape c hs fuel ts h ht
-  have hd' : DerL (tableOf G cap start) scan rhs kids 0 (8 * inp.cells.length) := by
+  have hd' : DerL (tableOf G v.cap start) scan rhs kids 0 (8 * inp.cells.length) := by
     have : c.ncols - 1 = 8 * inp.cells.length := by
       show (8 * inp.cells.length + 1) - 1 = _
       omega
     rw [← this]; exact hd
-  have hr' : (NT.user start, rhs) ∈ compile G cap := hr
-  have hsok : ScanOk G cap R scan := by
+  have hr' : (NT.user start, rhs) ∈ compile G v.cap := hr
+  have hsok : ScanOk G v.cap R scan := by
     intro x full t hm hmem i m l hsc
-    exact (hscan t (compile_terms_typed G cap inp.isBytes hty hm hmem) i m l hsc).1
-  refine ⟨collapse_top_valid G cap R scan start hwf hsok hr' hd', rfl, ?_⟩
-  have hres := derL_restrict G cap start scan (termTyped inp.isBytes)
-    (fun x full t hm hmem => compile_terms_typed G cap inp.isBytes hty hm hmem) hd'
+    exact (hscan t (compile_terms_typed G v.cap inp.isBytes hty hm hmem) i m l hsc).1
+  refine ⟨collapse_top_valid G v.cap R scan start hwf hsok hr' hd', rfl, ?_⟩
+  have hres := derL_restrict G v.cap start scan (termTyped inp.isBytes)
+    (fun x full t hm hmem => compile_terms_typed G v.cap inp.isBytes hty hm hmem) hd'
     (inTable_rule (List.mem_cons_of_mem _ hr'))
-  have := collapse_tiles_loose (tableOf G cap start) inp (scanOn (termTyped inp.isBytes) scan)
+  have := collapse_tiles_loose (tableOf G v.cap start) inp (scanOn (termTyped inp.isBytes) scan)
     (by
       intro t i m l hsc
       unfold scanOn at hsc
@@ -89,29 +90,29 @@ theorem parse_sound_of_scan (G : Grammar) (cap : Nat) (inp : Input) (start : Str
   simpa [Tree.leaves] using this
 
 /-- the same with the alignment clause, for a scanner that has it -/
-theorem parse_sound_of_aligned_scan (G : Grammar) (cap : Nat) (inp : Input) (start : String) (p : Policy)
-    (pred : Nat → NT → List (List ESym)) (scan : Scan) (R : RegexOracle)
-    (hpred : ∀ k x rhs, rhs ∈ pred k x → (x, rhs) ∈ compile G cap)
+theorem parse_sound_of_aligned_scan (G : Grammar) (v : Variant) (inp : Input) (start : String)
+    (pred : Nat → NT → List (List ESym)) (scan : Scan)
+    (hpred : ∀ k x rhs, rhs ∈ pred k x → (x, rhs) ∈ compile G v.cap)
     (hty : G.typed inp.isBytes = true)
     (hscan : ∀ t, termTyped inp.isBytes t = true → ∀ k m l, scan t k = some (m, l) →
       m = k + l.width ∧ LeafAt inp k l ∧ (l.isBit = false → k % 8 = 0))
     (fuel : Nat) (ts : List Tree)
-    (h : parseComplete (withScan (mkCfg G cap inp start p pred) scan) fuel = some (.ok ts)) :
+    (h : parseComplete (withScan (mkCfg G v inp start pred) scan) fuel = some (.ok ts)) :
     ∀ t ∈ ts, Tiles inp t.leaves 0 (8 * inp.cells.length) := by
   intro t ht
-  let c := withScan (mkCfg G cap inp start p pred) scan
-  have hs : SaneS c := saneS_of_rules c G cap rfl hpred
+  let c := withScan (mkCfg G v inp start pred) scan
+  have hs : SaneS c := saneS_of_rules c G v.cap rfl hpred
   obtain ⟨kids, rhs, rfl, hr, hd⟩ := yielded_shape c hs fuel ts h ht
-  have hd' : DerL (tableOf G cap start) scan rhs kids 0 (8 * inp.cells.length) := by
+  have hd' : DerL (tableOf G v.cap start) scan rhs kids 0 (8 * inp.cells.length) := by
     have : c.ncols - 1 = 8 * inp.cells.length := by
       show (8 * inp.cells.length + 1) - 1 = _
       omega
     rw [← this]; exact hd
-  have hr' : (NT.user start, rhs) ∈ compile G cap := hr
-  have hres := derL_restrict G cap start scan (termTyped inp.isBytes)
-    (fun x full t hm hmem => compile_terms_typed G cap inp.isBytes hty hm hmem) hd'
+  have hr' : (NT.user start, rhs) ∈ compile G v.cap := hr
+  have hres := derL_restrict G v.cap start scan (termTyped inp.isBytes)
+    (fun x full t hm hmem => compile_terms_typed G v.cap inp.isBytes hty hm hmem) hd'
     (inTable_rule (List.mem_cons_of_mem _ hr'))
-  have := collapse_tiles (tableOf G cap start) inp (scanOn (termTyped inp.isBytes) scan)
+  have := collapse_tiles (tableOf G v.cap start) inp (scanOn (termTyped inp.isBytes) scan)
     (by
       intro t i m l hsc
       unfold scanOn at hsc
@@ -120,6 +121,8 @@ theorem parse_sound_of_aligned_scan (G : Grammar) (cap : Nat) (inp : Input) (sta
         exact hscan t hp i m l hsc
       · cases hsc) hres
   simpa [Tree.leaves] using this
+
+theorem withScan_self (c : Cfg) : withScan c c.scan = c := rfl
 
 /-! ### payload-only trees: the tiling *is* the equation with the input -/
 
